@@ -16,11 +16,11 @@ P = {
          "Stated against the RFC-level grammar/semantics, so it holds for any decoder satisfying C02, not only this library's.", "6/C03"),
  'C04': ("Theorem Props.C04.only_documented_errors: for every reachable decoder state (any history of blocks, valid or not, and setter calls), every byte string and both modes, decode terminates (fuel never exhausted) and yields a list or one of the four documented classes; escapes (IndexError, ValueError from %d formatting, non-termination) are modelled explicitly and proved unreachable.",
          "MemoryError/RecursionError are outside the model (no recursion in the code; allocation bounded by C07).", "6/C04"),
- 'C05': ("Theorem Props.C05.accept_iff: decode returns fs iff the octets are blockOctets of representations (within the integer cap) whose RFC meaning in the current context is fs; Props.C05.error_class: on blocks well-formed up to the defect the raised class is the one interp assigns; truncation, UTF-8 and string-length clauses proved separately.",
+ 'C05': ("Theorem Props.C05.accept_iff: decode returns fs iff the octets are blockOctets of representations (within the integer cap) whose RFC meaning in the current context is fs; Props.C05.error_class: on blocks well-formed up to the defect the raised class is the one interp assigns; defect_decides: the first defective representation decides the class whatever octets follow; truncated_block: any representation cut short after any acceptable prefix is the decoding error; UTF-8 clause proved separately.",
          "The only latitude is the integer cap (encodings longer than the cap admits are refused), exactly as the property allows.", "6/C05"),
  'C06': ("Theorems Props.C06.always_decoder / always_encoder (invariant Inv: accounting = sum <= max, for every reachable state, including after blocks that fail midway: decode_any_outcome), add_evicts_oldest / fit_is_longest_prefix / add_exact_fit_kept / add_oversized_empties / resize (oldest-first, only as needed, exact fit kept, oversized empties, lowering evicts at once, raising evicts nothing).",
          "", "6/C06"),
- 'C07': ("Theorem Props.C07.bound: whenever decode returns (any byte string, any state, either mode) the list size is <= the limit; refused_at_crossing / exact_limit_continues: the oversized error is raised at the field that crosses the limit, a list exactly at the limit continues; fields_bounded: number of fields <= limit/32.",
+ 'C07': ("Theorem Props.C07.bound: whenever decode returns (any byte string, any state, either mode) the list size is <= the limit; refused_at_crossing(_block) / exact_limit_continues: the oversized error is raised at the field that crosses the limit whatever follows it, a list exactly at the limit continues; fields_bounded: number of fields <= limit/32.",
          "Memory/work bound is stated as a bound on returned sizes and field counts; allocator behaviour is outside the model.", "6/C07"),
  'C08': ("Theorems Props.C08.reject_above(_block), apply_at_or_below, any_number_leading, none_after_field, end_of_block_check and the invariant after_ok_block (after every successful decode of any byte string the table maximum is <= the permitted maximum).", "", "6/C08"),
  'C09': ("Theorems Props.C09.pending_after_assignments (for every reachable encoder and every run of assignments: the pending list contains only assigned values, every assigned value except possibly the size already in force - hence the smallest -, ends with the size in force) and next_block_signals (the next block is updates ++ fields with no update among the fields, and a peer in step ends at the encoder's size and entries). The clause 'none exceeds the size in force' is proved FALSE (Props.C09.full_statement_false, witness 40,100,40): known finding D5, reported as KNOWN-FINDING.",
@@ -32,8 +32,8 @@ P = {
  'C14': ("Theorems Props.C14.static_is_appendixA (61 entries, kernel-evaluated), static_index, dynamic_index, insertion_is_newest, index_zero_invalid, index_past_end_invalid, search_sound (all table states, all names), mapping_is_derived (the import-time mapping equals what _build_static_table_mapping computes from the table).",
          "get_by_index with an integer of more than 4300 decimal digits raises Python's ValueError from message formatting; the decoder cannot produce such an index (cap).", "6/C14"),
  'C15': ("Theorems Props.C15.encoder_field (sensitive => table untouched and emitted as exact index or never-indexed literal 0001xxxx), table_entries_were_submitted (over whole histories every table entry was submitted non-sensitive), decoder_literal (never-indexed => never class, no insertion; only the 01 pattern inserts), decoder_indexed_plain.", "", "6/C15"),
- 'C16': ("PARTIAL, proof over a work model: Props.C16.integer_work_constant (work on any integer bounded by a constant whatever the continuation run), long_run_refused, iterations_bounded (every loop iteration consumes an octet), uncapped_was_quadratic (the pre-fix behaviour). The tie to the real cost is a run-time probe: work units of the model (executed lines, bigint limb work, bytes copied by slicing) measured on the real decoder for 17 input families must grow linearly, and CPU time must not grow super-linearly.",
-         "Cannot exhibit: real CPU time, allocator behaviour and costs inside C builtins beyond the stated model; a whole-decoder linear bound over the work model is not yet proved (integer part only).", "6/C16"),
+ 'C16': ("PARTIAL, proof over a work model: Props.C16.decode_work_linear (for every reachable state and byte string the modelled work of decode is <= (3*intConst cap + 10)*|data| + entries + list limit + 1), integer_work_constant (work on any integer bounded by a constant whatever the continuation run), long_run_refused, iterations_bounded, uncapped_was_quadratic (the pre-fix behaviour). The tie to the real cost is a run-time probe: work units of the model (executed lines, bigint limb work, bytes copied by slicing) measured on the real decoder for 17 input families must grow linearly, and CPU time must not grow super-linearly.",
+         "Cannot exhibit: real CPU time, allocator behaviour and costs inside C builtins beyond the stated model; the per-iteration charges of the work model are assumptions about CPython, checked by the probe, not proved.", "6/C16"),
  'C17': ("PARTIAL, proof over ownership tags: Props.C17.holds_no_view (for every decoder history and every further block, returning or raising, no string in the table or the result is a view of the input), retained_bounded. The tie: the correspondence compares the model's tag with type(x) is bytes for every stored string; a run-time probe overwrites/resizes caller buffers of five kinds, checks reference counts and later results.",
          "Cannot exhibit: CPython reference counting and tracebacks held by the caller (probed at run time, not proved).", "6/C17"),
  'C18': ("Theorems Props.C18.encoder_depends_on_norm, plain_forms, sensitive_forms, text_is_utf8, dict_order_stable, dict_is_its_items, modes_same_state, text_ok_implies_raw, raw_vs_text. The model's encodeApi is encode after norm by definition; that the real Encoder.encode factors this way is established by the api correspondence stream (all form assignments) and the forms judge.",
